@@ -127,7 +127,7 @@ func (ex *Exec) modelled(st *State, ref string, fn *types.Func, recv *Val, args 
 	case "github.com/jonboulle/clockwork.Clock.NewTicker", "time.NewTicker", "time.Tick":
 		if len(args) >= 1 && sc == nil {
 			d := args[len(args)-1]
-			ex.obligNamed(st, "safety", "safety:ticker-interval-positive("+ex.eng.srcLine(pos)+")", pos, "(> "+d.S+" 0)", "NewTicker panics on a non-positive interval")
+			ex.safety(st, "ticker-interval-positive", pos, "(> "+d.S+" 0)")
 			r := ex.freshVal(r0(), "ticker")
 			st.assume("(< 0 " + r.S + ")")
 			return one(r)
